@@ -51,6 +51,12 @@ CLAIMED.update({
           "The futures and the Read/Write object are harness code; adapters share the fd with the simulator (fd stays open after the adapter is gone, the harsher case).", "3/C17"),
 })
 
+CLAIMED.update({
+  "C18": ("dsim", "deterministic simulation: instrumented children inside TransientSource inside a documented-style parent in a real loop; registration log and kernel table vs a protocol model", "exploration",
+          "Children (over a real pipe read end and over a real Timer) log every register/reregister/unregister/drop; histories over child post actions Continue/Reregister/Disable/Remove, remove(), replace(new), map() and parent-level enable/disable/update/remove, from From<T> and Default, each change followed by a re-registration request as documented. After every event and step: child registered iff it is the current kept child of a registered parent, never registered twice nor unregistered twice (while the parent's own calls alternate), retired children unregistered before being dropped and dropped by the retiring re-registration, events only from the current child, wrapper returns only Continue/Reregister, kernel epoll table agrees.",
+          "Known finding F10 (child Disable followed by any re-registration unregisters twice) ends the runs that hit it. remove() on a Replace state (documented leak) and non-alternating parent calls (LoopHandle::remove of a disabled source) are outside the property's proviso.", "3/C18"),
+})
+
 NOT_APPLICABLE = {
   "C20": "pure function of its inputs (shift/mask arithmetic, a counter): no schedule, clock, fault or history for a simulator to control; exhaustive enumeration or proof would be the right tool, which is outside this technique family",
 }
